@@ -3,6 +3,8 @@ EXTENDS SigDigest, Json
 GenDigest == (phase = 1) =>
   \A t \in Types : \A sv \in SigVersions : \A w \in Objects(t) : \A ekv \in SigneeVersions(t) :
      PrintT(<<"CASE", ToJson([kind |-> "digest", typ |-> t, sigver |-> sv, object |-> w, signeever |-> ekv, preimage |-> Preimage(t, sv, w, ekv)])>>)
+GenSalt == (phase = 1) =>
+  \A h \in SaltHashes : PrintT(<<"CASE", ToJson([kind |-> "saltlen", hash |-> h, len |-> SaltLen(h)])>>)
 GenFpr == (phase = 1) =>
   \A kv \in KeyVersions :
      PrintT(<<"CASE", ToJson([kind |-> "fingerprint", keyver |-> kv, hash |-> FprHash(kv), preimage |-> FprPreimage(kv), fprlen |-> FprLen(kv),
